@@ -134,12 +134,45 @@ def random_calls(rng, k):
         lines += dump_state({'x': ['i1', 'i2', 'r1', 's1', 'b1']})
     return Case(gen.join(lines), meta=dict(gen='random-calls', sample=k < 1))
 
+def scope_matrix_case(rng):
+    """every statement kind that resolves a NAME as its target (assignment, FOR, INPUT, READFILE, BYREF argument,
+    pointer target) x where the name lives (global only, local only, both, nowhere) x activation (procedure, function,
+    nested call); values printed inside the activation and after it returns"""
+    def use(kind, name, ind):
+        if kind == 'assign': return ['%s%s <- %s + 1000' % (ind, name, name) if rng.random() < 0.5 else '%s%s <- 41' % (ind, name)]
+        if kind == 'for': return ['%sFOR %s <- 1 TO 3' % (ind, name), '%s  OUTPUT "it ", %s' % (ind, name), '%sNEXT %s' % (ind, name)]
+        if kind == 'for-empty': return ['%sFOR %s <- 5 TO 1' % (ind, name), '%s  OUTPUT "never"' % ind, '%sNEXT %s' % (ind, name)]
+        if kind == 'input': return ['%sINPUT %s' % (ind, name)]
+        if kind == 'byref': return ['%sCALL bump(%s)' % (ind, name)]
+        if kind == 'pointer': return ['%sip <- ^%s' % (ind, name), '%sip^ <- ip^ + 7' % ind]
+        if kind == 'case': return ['%sCASE OF %s' % (ind, name), '%s    1 : OUTPUT "one"' % ind, '%s    OTHERWISE : OUTPUT "other"' % ind, '%sENDCASE' % ind]
+    kinds = ['assign', 'for', 'for-empty', 'input', 'byref', 'pointer', 'case']
+    L = ['TYPE IP = ^INTEGER', 'DECLARE ip : IP', 'DECLARE g : INTEGER', 'DECLARE b : INTEGER', 'g <- 100', 'b <- 200',
+         'PROCEDURE bump(BYREF z : INTEGER)', '  z <- z + 1', 'ENDPROCEDURE']
+    body = ['  DECLARE l : INTEGER', '  DECLARE b : INTEGER', '  l <- 10', '  b <- 20']
+    for _ in range(rng.randint(2, 5)):
+        k = rng.choice(kinds); nm = rng.choice(['g', 'g', 'l', 'b', 'n' if k in ('assign', 'for', 'for-empty', 'input') else 'g'])
+        body += use(k, nm, '  ') + ['  OUTPUT "in ", g, " ", l, " ", b']
+    form = rng.choice(['proc', 'func', 'nested'])
+    if form == 'proc':
+        L += ['PROCEDURE work'] + body + ['ENDPROCEDURE', 'CALL work', 'OUTPUT "after ", g, " ", b', 'CALL work', 'OUTPUT "after2 ", g, " ", b']
+    elif form == 'func':
+        L += ['FUNCTION work(p : INTEGER) RETURNS INTEGER'] + body + ['  RETURN g + l + b + p', 'ENDFUNCTION', 'OUTPUT work(1)', 'OUTPUT "after ", g, " ", b', 'OUTPUT work(g)']
+    else:
+        L += ['PROCEDURE work'] + body + ['ENDPROCEDURE', 'PROCEDURE outer', '  DECLARE g : INTEGER', '  g <- 555', '  CALL work', '  OUTPUT "outer ", g', 'ENDPROCEDURE', 'CALL outer', 'OUTPUT "after ", g, " ", b']
+    L += use(rng.choice(kinds), rng.choice(['g', 'b']), '') + ['OUTPUT "end ", g, " ", b']
+    return Case(gen.join(L), stdin=b'61\n62\n63\n64\n65\n66\n67\n68\n', limits=dict(steps=20000), meta=dict(gen='scope-matrix', sample=False))
+
 def generate(tier, rng):
     cases = [Case(s.encode(), meta=dict(gen='special')) for s in SPECIAL]
     for k in range(60 if tier == 'quick' else 600):
         cases.append(sticky_case(rng, k))
     for k in range(80 if tier == 'quick' else 1000):
         cases.append(random_calls(rng, k))
+    for k in range(60 if tier == 'quick' else 800):
+        cases.append(scope_matrix_case(rng))
+    for _ in range(25 if tier == 'quick' else 500):      # cross-feature programs (gen.rich_program): every data kind, call mode and file kind mixed
+        cases.append(Case(gen.rich_program(rng), limits=dict(steps=30000), stdin=b'typed\n', meta=dict(gen='rich', sample=False)))
     return cases
 
 def intrinsic(case, io, ia):
